@@ -292,6 +292,14 @@ def _drive(world, scenario, run, res, hooks):
                         run.rec("start_result", s["sid"], type(e).__name__, str(e)[:300])
                         return ("start_error", s["sid"], type(e).__name__, str(e)[:120])
                     run.rec("start_result", s["sid"], "ok", None)
+                    for j_, (name_, arg_) in enumerate(s.get("extra_calls", ())):
+                        try:
+                            res_ = getattr(mf, name_)(arg_)
+                            run.rec("extra_result", s["sid"], name_, arg_, res_)
+                        except (Deadlock, Livelock, SyncHang):
+                            raise
+                        except BaseException as e:  # noqa: BLE001
+                            run.rec("extra_result", s["sid"], name_, arg_, "raised:" + type(e).__name__)
                     ents[x] = mf.M.create(s.get("n_ent", 1))
                     if s.get("init_event") is not None:
                         world.set_initial_event(s["sid"], s["init_event"])
